@@ -19,7 +19,6 @@ Oracles (vlib/c12_region.py), per executed instance of the region:
 """
 from vlib import c12_region as R
 from vlib import gen_fortran as gf
-from vlib import psy
 
 PROP = "C12"
 LEVEL = "exploration"
@@ -70,7 +69,7 @@ def case_of(prog, src, res, fail):
     return {"uid": prog.uid, "module": src, "inputs": prog.inputs,
             "args": [[v.name, v.typ, [list(d) for d in v.dims], v.role]
                      for v in prog.args],
-            "region": list(res.key), "region_source": res.text,
+            "region": list(res.key),
             "oracle": fail.oracle, "source": fail.source, "var": fail.var,
             "input": fail.inp}
 
@@ -106,8 +105,16 @@ def run(ctx):
         # report after all counters are updated (fail may raise)
         for res in ana.regions:
             for fail in res.failures:
-                ctx.fail(f"{fail.oracle}:{fail.source}",
-                         case_of(prog, src, res, fail), fail.msg)
+                try:
+                    ctx.fail(f"{fail.oracle}:{fail.source}",
+                             case_of(prog, src, res, fail), fail.msg)
+                except Exception as err:    # pylint: disable=broad-except
+                    # the runner's Failure (the runner module may be loaded
+                    # as __main__, so it is recognised by its attributes):
+                    # render the region only for cases that are reported
+                    if isinstance(getattr(err, "case", None), dict):
+                        err.case["region_source"] = res.text
+                    raise
 
     total = ctx.scale(900, 30000)
     ctx.hyp(prop, gf.programs(PROFILE), max_examples=max(3, total * 3 // 5),
